@@ -23,3 +23,8 @@ VARIANTS = [
       rule='C17-ROWNUM', key='write_detected_records'),
     M('C17', 'refactor-params-update', E(FL, "    params.update({\n        'report': 'all',\n        'ascii': False,\n    })\n    if flags.all:", "    params['report'] = 'all'\n    params['ascii'] = False\n    if flags.all:"), kind='refactor'),
 ]
+
+VARIANTS += [
+    M('C17', 'front-end-touches-output-first', E(PD, "    df = load_df(df_path)\n    v = detect_df(df, constraints_path, outpath=outpath,", "    if outpath and outpath != '-':\n        with open(outpath, 'w'):\n            pass\n    df = load_df(df_path)\n    v = detect_df(df, constraints_path, outpath=outpath,"),
+      rule='C17-NOWRITE', key='detect_df_from_file'),
+]
